@@ -13,12 +13,20 @@ EXTENDS MSPQ, TLC
 
 \* ---- binding table: leaves are CBOR path classes (array indices erased) ----
 \* everything is bound unless listed here
-FreeLeaf(proto, round, kind, leaf, senderIsPrev) ==
+FreeLeaf(proto, round, kind, leaf, senderIsPrev, idx) ==
   \/ proto = "session" /\ round = 1 /\ kind = "b" /\ leaf = "/Ck"     \* fresh per-party commitment key; enters the common seed
   \/ proto \in {"redist", "redistAnchor", "redistNew"} /\ ~senderIsPrev            \* next-only holders send empty, ignored messages
+  \* redistribution to newcomers only, without a trusted anchor: nobody holds a reference for the previous epoch's public data, so
+  \* the previous span programme, the summed zero vector and the entries of the previous verification vector other than the
+  \* public key itself are unauthenticated metadata (documented: newcomers need an anchor to validate them)
+  \/ proto = "redistNew" /\ leaf \in {"/PrevMSP/Matrix/data[]", "/PrevMSP/Matrix/rows", "/PrevMSP/Matrix/cols", "/PrevMSP/Matrix/data",
+                                        "/PrevMSP/RowsToHolders/0", "/PrevMSP/RowsToHolders/1", "/PrevMSP/RowsToHolders/2",
+                                        "/ZeroVerificationVector/verification_vector/data[]", "/ZeroVerificationVector/verification_vector/data",
+                                        "/ZeroVerificationVector/verification_vector/rows", "/ZeroVerificationVector/verification_vector/cols"}
+  \/ proto = "redistNew" /\ leaf = "/PrevVerificationVector/verification_vector/data[]" /\ idx >= 1
   \/ proto = "ecbbot"                                                 \* the base OT has no consistency check: a deviator only spoils its own output
   \/ proto = "rvole" /\ round # 3                                     \* the multiplier's check (theta, eta, mu) is on Alice's last message only
-Bound(proto, round, kind, leaf, senderIsPrev) == ~FreeLeaf(proto, round, kind, leaf, senderIsPrev)
+Bound(proto, round, kind, leaf, senderIsPrev, idx) == ~FreeLeaf(proto, round, kind, leaf, senderIsPrev, idx)
 
 SeqSet(s) == {s[i] : i \in 1..Len(s)}
 K(i) == ToString(i)
@@ -71,5 +79,5 @@ TamperOK(e) ==
   /\ NoCrashNoHang(e)
   /\ BlameOnlyDeviator(e)
   /\ OutputsValid(e)
-  /\ (e.changed /\ Bound(e.proto, e.round, e.kind, e.leaf, e.senderIsPrev)) => Detected(e)
+  /\ (e.changed /\ Bound(e.proto, e.round, e.kind, e.leaf, e.senderIsPrev, e.idx)) => Detected(e)
 =============================================================================
